@@ -67,7 +67,8 @@ instance (e : Expr) : Decidable (InFragment e) := inferInstanceAs (Decidable (_ 
 
   * `plain`      an operand (`Test`): no `Starred`, no `Slice`;
   * `elem`       element of a display / argument list / `yield` value / list-comprehension element: `Starred` allowed;
-  * `sub`        directly under `Subscript`: `Slice`, `Starred`, a bare `NamedExpr`, a tuple of `subElem`s;
+  * `sub`        directly under `Subscript`: `Slice`, a bare `NamedExpr`, a tuple of `subElem`s (a single starred
+                 index is the 1-tuple);
   * `subElem`    element of the tuple directly under `Subscript`: `Slice`, `Starred`, operand;
   * `target`     comprehension target (`ExpressionList` in front of `in`): an `Expression`-level operand (no lambda,
                  conditional, `and` / `or` / `not`, comparison, named expression — the unparser renders the target at
@@ -133,11 +134,9 @@ def fx : XPos → Expr → Bool
   | _, .joinedStr _ => false
   | _, .attribute e _ => fx .plain e
   | _, .subscript e s => fx .plain e && fx .sub s
-  -- NOTE (`x[*a]`): at position `.sub` a bare `Starred` is admitted because the parser as it is reads `x[*a]` as
-  -- `Subscript(x, Starred a)` (CPython: `Tuple [Starred a]`).  If parseSubscriptList is changed to build the 1-tuple,
-  -- this arm must exclude `q = .sub` (and `sub_of` in InductionX.lean loses its `subOK_starred` case; `x[*a,]` is
-  -- `subOK_tuple`).
-  | q, .starred e => (q != .plain) && fx .plain e
+  -- (`x[*a]`): directly under `Subscript` a bare `Starred` is NOT admitted: since the /repo fix of `SubscriptList`
+  -- the parser reads `x[*a]` as `Tuple [Starred a]` (as CPython does); that 1-tuple is in the fragment (`.subElem`)
+  | q, .starred e => (q != .plain && q != .sub) && fx .plain e
   | _, .list es => fxList .elem es
   | q, .tuple es => fxList q.tupleElem es
   | q, .slice lo hi st => (q == .sub || q == .subElem) && fxOpt lo && fxOpt hi && fxOpt st
